@@ -62,6 +62,50 @@ package cors
 //@   ensures C09.debug_off_failure_is_bare: old(m.icfg) != nil && !old(m.debug) && old(IsPreflight(r)) && !old(PreflightOK(old(m.icfg), r, false)) ==> status() == 403 && NoCORSHeaderChanged(w)
 //@   ensures C09.vary_ignores_debug: old(m.icfg) != nil && old(IsPreflight(r)) ==> (old(has(hdr(w), "Vary")) ? len(get(hdr(w), "Vary")) == len(old(get(hdr(w), "Vary"))) + 1 : get(hdr(w), "Vary") === headers.PreflightVarySgl)
 
+//@ func internalConfig.validatePreflightStatus
+//@   props C04 C05 C06 C08 C17
+//@   requires icfg != nil
+//@   assigns icfg.preflightStatusMinus200
+//@   ensures C04.status_range: result == nil ==> status == 0 || (200 <= status && status <= 299)
+//@   ensures C05.status_accept: (status == 0 || (200 <= status && status <= 299)) ==> result == nil
+//@   ensures result == nil ==> icfg.preflightStatusMinus200 == (status == 0 ? 4 : status - 200)
+//@   ensures C05.status_error: result != nil ==> dyntype(result, "*cfgerrors.PreflightSuccessStatusOutOfBoundsError") && payload(result, "*cfgerrors.PreflightSuccessStatusOutOfBoundsError") != nil && payload(result, "*cfgerrors.PreflightSuccessStatusOutOfBoundsError").Value == status && payload(result, "*cfgerrors.PreflightSuccessStatusOutOfBoundsError").Default == 204 && payload(result, "*cfgerrors.PreflightSuccessStatusOutOfBoundsError").Min == 200 && payload(result, "*cfgerrors.PreflightSuccessStatusOutOfBoundsError").Max == 299
+
+//@ func internalConfig.validateMaxAge
+//@   props C04 C05 C06 C08 C17
+//@   requires icfg != nil
+//@   assigns icfg.acma
+//@   ensures C04.max_age_range: result == nil ==> -1 <= delta && delta <= 86400
+//@   ensures C05.max_age_accept: (-1 <= delta && delta <= 86400) ==> result == nil
+//@   ensures result == nil && delta == 0 ==> icfg.acma === old(icfg.acma)
+//@   ensures result == nil && delta != 0 ==> len(icfg.acma) == 1 && icfg.acma != nil
+//@   ensures C05.max_age_error: result != nil ==> dyntype(result, "*cfgerrors.MaxAgeOutOfBoundsError") && payload(result, "*cfgerrors.MaxAgeOutOfBoundsError") != nil && payload(result, "*cfgerrors.MaxAgeOutOfBoundsError").Value == delta && payload(result, "*cfgerrors.MaxAgeOutOfBoundsError").Default == 5 && payload(result, "*cfgerrors.MaxAgeOutOfBoundsError").Max == 86400 && payload(result, "*cfgerrors.MaxAgeOutOfBoundsError").Disable == -1
+
+//@ func internalConfig.validateMethods
+//@   props C04 C05 C08 C15 C17
+//@   frozen E! F!util_Set
+//@   uses mem_empty
+//@   requires icfg != nil && icfg > 0
+//@   requires !icfg.allowAnyMethod && len(icfg.allowedMethods.elems) == 0 && SetInv(icfg.allowedMethods)
+//@   assigns icfg.allowAnyMethod
+//@   assigns icfg.allowedMethods
+//@   assigns heap("E!Str")
+//@   ensures C04.methods: result == nil ==> (forall j :: 0 <= j && j < len(names) ==> OkMethod(old(names[j])))
+//@   ensures C05.methods_accept: (forall j :: 0 <= j && j < len(names) ==> OkMethod(old(names[j]))) ==> result == nil
+//@   ensures C15.any_method_is_membership: result == nil ==> (icfg.allowAnyMethod == (exists j :: 0 <= j && j < len(names) && old(names[j]) == "*"))
+//@   ensures result == nil ==> SetInv(icfg.allowedMethods)
+//@   ensures C15.methods_are_a_set: result == nil && !icfg.allowAnyMethod ==> (forall x string :: Mem(icfg.allowedMethods, x) == (exists j :: 0 <= j && j < len(names) && old(names[j]) != "*" && methods.IsValid(old(names[j])) && !methods.IsSafelisted(methods.Normalize(old(names[j]))) && !methods.IsForbidden(methods.Normalize(old(names[j]))) && x == methods.Normalize(old(names[j]))))
+//@   onappend C05.method_error: dyntype(e, "*cfgerrors.UnacceptableMethodError") && payload(e, "*cfgerrors.UnacceptableMethodError") != nil && (payload(e, "*cfgerrors.UnacceptableMethodError").Reason == "invalid" ? payload(e, "*cfgerrors.UnacceptableMethodError").Value === names[rangeindex+1] : (payload(e, "*cfgerrors.UnacceptableMethodError").Reason == "forbidden" && payload(e, "*cfgerrors.UnacceptableMethodError").Value === methods.Normalize(names[rangeindex+1])))
+//@   loop 0 invariant -1 <= rangeindex && rangeindex < len(names)
+//@   loop 0 invariant (len(errs) == 0) == (forall j :: 0 <= j && j <= rangeindex ==> OkMethod(old(names[j])))
+//@   loop 0 invariant forall k :: 0 <= k && k < len(errs) ==> errs[k] != nil
+//@   loop 0 invariant icfg.allowAnyMethod == (exists j :: 0 <= j && j <= rangeindex && old(names[j]) == "*")
+//@   loop 0 invariant forall x string :: Mem(allowedMethods, x) == (exists j :: 0 <= j && j <= rangeindex && old(names[j]) != "*" && methods.IsValid(old(names[j])) && !methods.IsSafelisted(methods.Normalize(old(names[j]))) && !methods.IsForbidden(methods.Normalize(old(names[j]))) && x == methods.Normalize(old(names[j])))
+//@   loop 0 invariant SetInv(allowedMethods) && (arr(allowedMethods.elems) == 0 || isfresh(arr(allowedMethods.elems)))
+//@   loop 0 invariant forall j :: 0 <= j && j < len(names) ==> names[j] === old(names[j])
+//@   loop 0 invariant icfg.allowedMethods === old(icfg.allowedMethods)
+//@   loop 0 decreases len(names) - rangeindex
+
 //@ func newInternalConfig
 //@   props C04 C05 C06 C08 C09 C15 C17
 //@   trusted TEMPORARY until L6 (validators) is under contract
